@@ -57,7 +57,38 @@ var entries = map[string]entry{
 		return err
 	},
 	"CFList.UnmarshalBinary": func(b []byte, k lorawan.AES128Key) error { var c lorawan.CFList; return c.UnmarshalBinary(b) },
-	"MACCommand.up":          func(b []byte, k lorawan.AES128Key) error { var m lorawan.MACCommand; return m.UnmarshalBinary(true, b) },
+	// the exported PART decoders, called directly
+	"CFListChannelPayload.UnmarshalBinary": func(b []byte, k lorawan.AES128Key) error {
+		var c lorawan.CFListChannelPayload
+		return c.UnmarshalBinary(false, b)
+	},
+	"CFListChannelMaskPayload.UnmarshalBinary": func(b []byte, k lorawan.AES128Key) error {
+		var c lorawan.CFListChannelMaskPayload
+		return c.UnmarshalBinary(false, b)
+	},
+	"JoinRequestPayload.UnmarshalBinary": func(b []byte, k lorawan.AES128Key) error {
+		var c lorawan.JoinRequestPayload
+		return c.UnmarshalBinary(true, b)
+	},
+	"RejoinRequestType02Payload.UnmarshalBinary": func(b []byte, k lorawan.AES128Key) error {
+		var c lorawan.RejoinRequestType02Payload
+		return c.UnmarshalBinary(true, b)
+	},
+	"RejoinRequestType1Payload.UnmarshalBinary": func(b []byte, k lorawan.AES128Key) error {
+		var c lorawan.RejoinRequestType1Payload
+		return c.UnmarshalBinary(true, b)
+	},
+	"MACPayload.UnmarshalBinary.up": func(b []byte, k lorawan.AES128Key) error { var c lorawan.MACPayload; return c.UnmarshalBinary(true, b) },
+	"MACPayload.UnmarshalBinary.down": func(b []byte, k lorawan.AES128Key) error {
+		var c lorawan.MACPayload
+		return c.UnmarshalBinary(false, b)
+	},
+	"FHDR.UnmarshalBinary": func(b []byte, k lorawan.AES128Key) error { var c lorawan.FHDR; return c.UnmarshalBinary(true, b) },
+	"DataPayload.UnmarshalBinary": func(b []byte, k lorawan.AES128Key) error {
+		var c lorawan.DataPayload
+		return c.UnmarshalBinary(true, b)
+	},
+	"MACCommand.up": func(b []byte, k lorawan.AES128Key) error { var m lorawan.MACCommand; return m.UnmarshalBinary(true, b) },
 	"MACCommand.down": func(b []byte, k lorawan.AES128Key) error {
 		var m lorawan.MACCommand
 		return m.UnmarshalBinary(false, b)
@@ -149,7 +180,18 @@ func totalEvent(c *ctx, name string, b []byte) M {
 	k := c.key()
 	inflight("total/"+name, b)
 	res, _ := observe(func() error { return entries[name](in, k) })
-	return M{"ev": "total", "entry": name, "len": len(b), "err": res, "intact": string(backing) == before, "head": bs(b[:min(len(b), 24)])}
+	// ... and the same bytes as an exactly-sized slice (capacity = length): nothing may depend on what lies behind the input
+	exact := make([]byte, len(b))
+	copy(exact, b)
+	res2, _ := observe(func() error { return entries[name](exact[:len(b):len(b)], k) })
+	if res == "" || res == "error" {
+		if res2 != "" && res2 != "error" {
+			res = res2
+		} else if res2 != res {
+			res = "differs-by-capacity"
+		}
+	}
+	return M{"ev": "total", "entry": name, "len": len(b), "err": res, "intact": string(backing) == before && string(exact) == string(b), "head": bs(b[:min(len(b), 24)])}
 }
 
 func min(a, b int) int {
